@@ -48,7 +48,7 @@ def _decide(v: Verifier, o: Obl, target: Optional[str]) -> Dict[str, Any]:
         return rec
     c = REGISTRY.get(target) if target else None
     witness = v.concretize(c if c is not None else type("C", (), {"concretize": None})(), o)
-    if witness is not None and c is not None and all(x is not None for x in witness.values()):
+    if witness is not None and c is not None and _faithful(witness, c):
         try:
             bad, rmsg = replay_obligation(c, o.name, witness)
         except BaseException as e:  # noqa
@@ -63,6 +63,20 @@ def _decide(v: Verifier, o: Obl, target: Optional[str]) -> Dict[str, Any]:
             rec["detail"] = f"{o.detail}; {rmsg}"
     rec["witness"] = _jsonable(witness) if witness is not None else None
     return rec
+
+
+def _faithful(w, c=None, top=True) -> bool:
+    """can the concretised arguments be handed to the real function?  (None = a value the model does not determine,
+    a dict with __error__ = an object that could not be constructed natively; `self` of a contract with its own
+    call_native is exempt)"""
+    if isinstance(w, dict):
+        if "__error__" in w or "__class__" in w:
+            return False
+        return all(_faithful(v, c, False) for k, v in w.items()
+                   if not (top and k == "self" and c is not None and c.call_native is not None))
+    if isinstance(w, (list, tuple)):
+        return all(_faithful(v, c, False) for v in w)
+    return w is not None or not top
 
 
 def report_record(ctx: Ctx, rec: Dict[str, Any]) -> None:
